@@ -77,3 +77,13 @@ def safe_div_bad(a, b):
         return a / b
     except ValueError:                   # broken: the wrong exception is caught
         return None
+
+
+def fresh_names_good(seen, new):
+    names = {s for s in seen}            # a set of symbolic values: membership only (values.SymSet)
+    return tuple(n for n in new if n not in names)
+
+
+def fresh_names_bad(seen, new):
+    names = {s for s in seen[1:]}        # broken: the first name already seen is forgotten
+    return tuple(n for n in new if n not in names)
